@@ -207,10 +207,27 @@ func TestC09(t *testing.T) {
 				}
 				c = ls[rapid.IntRange(0, len(ls)-1).Draw(t, "log_cell_i")]
 			}
+			if rapid.IntRange(0, 4).Draw(t, "win_cell") == 0 {
+				// a fifth of the sample: stops that meet the answer of the Create that wins the key (the stop call
+				// and the adoption of that answer then run side by side)
+				var ws []c09Cell
+				for _, x := range grid {
+					if x.Op == OpCreate && (x.Phase == "applied" || x.Phase == "returning") && x.Outcome == "ok" &&
+						((x.Role == "leader" && x.Nth == 0) || x.Role == "successor-takeover") {
+						ws = append(ws, x)
+					}
+				}
+				c = ws[rapid.IntRange(0, len(ws)-1).Draw(t, "win_cell_i")]
+			}
 			h := rapid.SampledFrom([]time.Duration{100 * time.Millisecond, 300 * time.Millisecond, time.Second, 300 * time.Millisecond, time.Second, 20 * time.Second}).Draw(t, "H")
 			lat := genLatList(t, min(h/4, 250*time.Millisecond), "lat")
 			fu := rapid.SampledFrom(c09Followups).Draw(t, "followup")
 			p := c09Plan(c, fu, lat, h, rapid.IntRange(0, 2).Draw(t, "others"))
+			if rapid.IntRange(0, 2).Draw(t, "yields_on") == 0 {
+				// the processor is given up at the library's logger / metrics calls: what is runnable at the instant
+				// of the stop (an answer that has just arrived, say) gets to run between two steps of the stop call
+				p.Yields = rapid.SliceOfN(rapid.SampledFrom([]uint8{0, 1, 1, 2, 3}), 1, 6).Draw(t, "yields")
+			}
 			if c.Outcome == "hang" {
 				// how long the unanswered request stays unanswered: the default 5s (it returns just as Stop gives up
 				// waiting), somewhat longer, or beyond the end of the run
